@@ -491,6 +491,7 @@ func judgeC05Apply(args, real, drv json.RawMessage) *core.Verdict {
 	var d struct {
 		Outs []json.RawMessage   `json:"outs"`
 		Flat [][]json.RawMessage `json:"flat"`
+		Walk [][2]string         `json:"walk"`
 	}
 	if json.Unmarshal(drv, &d) != nil || len(d.Outs) == 0 {
 		return core.Disagree("malformed driver outcome: " + string(drv))
@@ -512,7 +513,7 @@ func judgeC05Apply(args, real, drv json.RawMessage) *core.Verdict {
 		return v
 	}
 	// ---- cycle oracle (Props/C05Cycle.lean): `circular` is reported iff some chain runs into a cycle
-	if v := c05CycleVerdict(args, r.Out, d.Flat); v != nil {
+	if v := c05CycleVerdict(args, r.Out, d.Flat, d.Walk); v != nil {
 		return v
 	}
 	if !c05MemberOf(r.Out, d.Outs) {
@@ -643,16 +644,21 @@ func c05SpecVerdict(args, realOut json.RawMessage, flat [][]json.RawMessage) *co
 	return core.Fail("extends-ne-flatten:"+strings.Join(u, ","), "a resolved service differs from base-then-local flattening (override rules = the C04 merge model) in "+strings.Join(u, ","))
 }
 
-// c05CycleVerdict decides `circular_sound` and `cycle_is_circular` on the real outcome.  The driver's flatten
-// specification classifies every service: it flattens, its chain is longer than the number of distinct (mapping, name)
-// nodes — i.e. it runs into a cycle —, or it has another defect.
+// c05CycleVerdict decides `circular_sound` and `cycle_is_circular` on the real outcome.  The driver classifies every
+// service: it flattens (`flattenF` = `Flat`), its link walk `walkChain` is still going after more links than there are
+// distinct (mapping, name) nodes — i.e. it runs into a cycle, `walkChain_long_iff_cyclic` —, or it has another defect.
 //   - the real code reports `circular` although no chain is cyclic (and no service is null / not a mapping): the tracker
 //     reported a cycle that is not there                                        → circular-without-cycle
 //   - every service flattens or is cyclic, at least one is cyclic, and the real code accepts the document or reports
 //     something else                                                            → cycle-accepted:apply / cycle-misreported:<class>
-func c05CycleVerdict(args, realOut json.RawMessage, flat [][]json.RawMessage) *core.Verdict {
-	if len(flat) == 0 {
+func c05CycleVerdict(args, realOut json.RawMessage, flat [][]json.RawMessage, walk [][2]string) *core.Verdict {
+	if len(flat) == 0 || len(walk) != len(flat) {
 		return nil
+	}
+	long := map[string]bool{}
+	for _, w := range walk {
+		c05Stat("apply/walk/" + w[1])
+		long[w[1]+"\x00"+w[0]] = true
 	}
 	nCyc, nOther, nNotSvc := 0, 0, 0
 	for _, e := range flat {
@@ -664,12 +670,13 @@ func c05CycleVerdict(args, realOut json.RawMessage, flat [][]json.RawMessage) *c
 			Err   *string         `json:"err"`
 			Panic *string         `json:"panic"`
 		}
-		if json.Unmarshal(e[1], &o) != nil {
+		var name string
+		if json.Unmarshal(e[1], &o) != nil || json.Unmarshal(e[0], &name) != nil {
 			return nil
 		}
 		switch {
 		case o.Ok != nil:
-		case o.Err != nil && *o.Err == "flatten:chain-too-long":
+		case long["long\x00"+name]: // the link walk never ends: the chain runs into a cycle (walkChain_long_iff_cyclic)
 			nCyc++
 		case o.Err != nil && (*o.Err == "flatten:not-a-service" || *o.Err == "flatten:base-not-a-mapping"):
 			nNotSvc++
